@@ -25,6 +25,10 @@ LADDERS = {
     "RQ-RC": "R{R=10}(R{R=100}Q{Y=1e-4,n=0.85})(R{R=50}C{C=1e-2})",
     "RQ-RQ": "R{R=2}(R{R=30}Q{Y=5e-4,n=0.9})(R{R=90}Q{Y=6e-3,n=0.75})",
     "RC3": "R{R=1}(R{R=10}C{C=1e-5})(R{R=25}C{C=1e-3})(R{R=15}C{C=5e-2})",
+    # time constants at the edges of the measured range: the phase is still changing at the first (highest) and last frequency
+    "RC-top": "R{R=10}(R{R=100}C{C=2e-7})(R{R=60}C{C=1e-3})",
+    "RQ-top-RC": "R{R=10}(R{R=100}Q{Y=1e-6,n=0.9})(R{R=60}C{C=1e-3})",
+    "RC-bottom": "R{R=10}(R{R=100}C{C=2e-5})(R{R=60}C{C=5e-1})",
 }
 GRIDS = {"g43": (4, -2, 43), "g31": (5, 0, 31), "g61": (3, -3, 61), "g43hi": (6, 0, 43)}
 WARPED = {"g43warp": (4, -2, 43, 1.7)}   # same end points and point count as g43, non-uniform spacing (window-sequence only)
@@ -194,8 +198,10 @@ def run_case(case: dict, st=None) -> Tuple[List[dict], str]:
             viol(f"constant-phase-modulus|{opts}", f"reconstructed modulus of a constant-phase spectrum ({case['spec']}) deviates by {err:.3g} (> 2e-4) [{opts}]",
                  f"np_order={case.get('np_order')} weights={case.get('weights', case.get('window'))} grid={case.get('grid', 'g43')}")
     elif part == "ladder":
-        if not err <= 0.15:
-            viol(f"ladder-modulus|{opts}", f"reconstructed modulus of ladder {case['spec']} deviates by {err * 100:.1f} % (> 15 %) [{opts}]")
+        # frozen per-ladder bands: about 1.6 x the largest deviation over all smoothing x interpolation options on the unchanged tree
+        band = {"RC": 0.07, "RC-RC": 0.07, "RQ": 0.07, "RQ-RC": 0.04, "RQ-RQ": 0.04, "RC3": 0.15, "RC-top": 0.10, "RQ-top-RC": 0.11, "RC-bottom": 0.08}.get(case["spec"], 0.15)
+        if not err <= band:
+            viol(f"ladder-modulus|{opts}", f"reconstructed modulus of ladder {case['spec']} deviates by {err * 100:.1f} % (> {band * 100:.0f} %) [{opts}]")
     elif part == "scaling":
         a = case["factor"]
         r2 = zhit_call(f, Z * a, case, st, w)
@@ -316,10 +322,10 @@ def run(ctx) -> None:
                 "ramp) x 3 frequency grids; named windows (boxcar, hann, blackman) x 3 centres x 2 widths and the default call (window='auto'); six "
                 "RC/RQ ladders (default options; thorough: all smoother/interpolator pairs); scaling by 2^10, 1e-3, 1e9 and 1e-9; the same named window on two equally long grids in sequence (corrupted moduli outside the window); modification of |Z| at "
                 "zero-weight points; every smoothing filter on exactly constant and exactly linear phase for 6 (m, p) pairs; the window generator "
-                "for 13 named windows x 3 centres x 3 widths. Tolerances: constant phase 2e-4, ladders 15 %, scaling 2e-4, zero-weight "
+                "for 13 named windows x 3 centres x 3 widths. Tolerances: constant phase 2e-4, ladders frozen per-ladder bands of 4-15 %, scaling 2e-4, zero-weight "
                 "invariance 1e-9, filters 1e-10 (calibrated on the unchanged tree, DESIGN C11).")
     ctx.exhaustive = True
-    ctx.assumptions = ["spectra are the declared finite set; ladders are judged with a frozen 15 % band"]
+    ctx.assumptions = ["spectra are the declared finite set; ladders are judged with frozen per-ladder bands (about 1.6 x the largest deviation on the unchanged tree)"]
     cs = cases(thorough)
     heavy = [c for c in cs if c["part"] not in ("filters", "window")]
     light = [c for c in cs if c["part"] in ("filters", "window")]
